@@ -12,7 +12,42 @@ fn is_apostrophe_variant(c: char) -> bool {
     matches!(c, '’' | '‘' | '＇')
 }
 
+/// matches every token it is given
+struct Everything;
+
+impl harper_core::patterns::Pattern for Everything {
+    fn matches(&self, tokens: &[harper_core::Token], _source: &[char]) -> usize {
+        tokens.len()
+    }
+}
+
+/// `IsNotTitleCase` is title-casing as a predicate (used by the proper-noun rules): it reports a
+/// text exactly when title-casing would change it — in particular never a title-cased text.
+fn test_pattern(text: &str, ctx: &mut CaseCtx) -> Result<(), String> {
+    use harper_core::patterns::{IsNotTitleCase, Pattern};
+    let dict = FstDictionary::curated();
+    let reported = |t: &str| {
+        let doc = Document::new(t, &PlainEnglish, &dict);
+        !doc.get_tokens().is_empty() && IsNotTitleCase::new(Box::new(Everything), dict.clone()).matches(doc.get_tokens(), doc.get_source()) != 0
+    };
+    let titled = make_title_case_str(text, &PlainEnglish, &dict);
+    let changes = titled != *text;
+    ctx.class_if(text.chars().next().is_some_and(|c| c.is_lowercase() && !c.is_ascii()), "starts_with_non_ascii_lower_case_letter");
+    if reported(text) != changes {
+        return Err(format!(
+            "IsNotTitleCase {} {text:?} although title-casing {} ({titled:?})",
+            if changes { "does not report" } else { "reports" },
+            if changes { "changes it" } else { "leaves it unchanged" }
+        ));
+    }
+    if reported(&titled) {
+        return Err(format!("IsNotTitleCase reports the title-cased text {titled:?} (from {text:?}) as not being title case"));
+    }
+    Ok(())
+}
+
 pub fn test_title(text: &String, ctx: &mut CaseCtx) -> Result<(), String> {
+    test_pattern(text, ctx)?;
     ctx.class_if(text.contains('\n'), "has_line_break");
     ctx.class_if(text.ends_with('\n'), "ends_with_line_break");
     // the two entry points: the library function and the JavaScript-facing binding
@@ -133,6 +168,7 @@ fn title_text() -> BoxedStrategy<String> {
         3 => g::sel_str(&["a", "an", "the", "of", "in", "on", "and", "but", "for", "or", "nor", "to", "at", "by", "from", "with", "over", "into", "about", "THE", "Of", "AND"]),
         3 => proper(),
         2 => g::word_like(),
+        2 => g::sel_str(&["élan", "über", "ßeta", "øre", "émigré", "ñandú", "ångström", "αβγ", "это", "ǆ", "ﬂow"]),
         1 => g::sel_str(&["ﬁsh", "İstanbul", "ıslak", "ǆ", "straße", "éclair", "😀", "o’clock", "rock-and-roll", "state-of-the-art", "3rd", "iPhone", "e.g.", "U.S.", "don’t", "it's"]),
     ];
     prop_oneof![
@@ -211,12 +247,13 @@ pub fn test_markdown_equivalence(c: &(String, u8), ctx: &mut CaseCtx) -> Result<
 }
 
 pub fn run(run: &mut Run) {
-    run.rule = "both entry points (make_title_case_str and the JavaScript-facing harper_wasm::to_title_case) on single-paragraph texts, 1 in 3 wrapped over two lines (LF / CRLF) or ending with a line break: 1-8 words drawn from dictionary words, short prepositions/articles/conjunctions, dictionary proper nouns in wrong case / with curly apostrophes, special words (ligatures, Turkish İ/ı, astral, hyphenated, contractions, numbers) with varied separators; plus G-TEXT paragraphs and harvested sentences; through make_title_case_str(PlainEnglish, curated). Non-trivial = >=3 word-like tokens incl. a small word or a proper noun; distinct by text.".into();
+    run.rule = "the predicate form IsNotTitleCase must report a text exactly when title-casing changes it and never a title-cased text; both entry points (make_title_case_str and the JavaScript-facing harper_wasm::to_title_case) on single-paragraph texts, 1 in 3 wrapped over two lines (LF / CRLF) or ending with a line break: 1-8 words drawn from dictionary words, short prepositions/articles/conjunctions, dictionary proper nouns in wrong case / with curly apostrophes, special words (ligatures, Turkish İ/ı, astral, hyphenated, contractions, numbers) with varied separators; plus G-TEXT paragraphs and harvested sentences; through make_title_case_str(PlainEnglish, curated). Non-trivial = >=3 word-like tokens incl. a small word or a proper noun; distinct by text.".into();
     let n = run.n(50_000, 3_000_000);
     run.prop("title_case", n, title_text, test_title);
     run.require_class("title_case", "has_small_word", (n / 10) as u64);
     run.require_class("title_case", "has_proper_noun", (n / 10) as u64);
     run.require_class("title_case", "has_line_break", (n / 20) as u64);
+    run.require_class("title_case", "starts_with_non_ascii_lower_case_letter", (n / 100) as u64);
     run.require_class("title_case", "ends_with_line_break", (n / 40) as u64);
 
     let n = run.n(20_000, 500_000);
